@@ -23,6 +23,7 @@ MEMBERS = {"method": "echo", "method_raises": "fail", "method_streams": "numbers
            "method_slow": "slow"}
 PATTERNS = {"default": r"http\.", "anchored": r"http\.echo$", "empty": ""}
 PARAMS = {"none": [], "one": [("message", "hi there")], "two": [("a", "1"), ("b", "two")], "repeated": [("a", "1"), ("a", "2")],
+          "blank": [("a", ""), ("b", "x")],
           "encoded": [("text", "héllo wörld&=+/%?#"), ("n", "中"), ("esc", "100%41%2541"), ("plus", "a+b c")]}
 KEY = "secret-key-1"
 WRONG_KEYS = ["wrong", "secret-key-", "secret-key-1x", "SECRET-KEY-1", "secret-key-2", " secret-key-1", "secret-key-1 ", "s", "ecret-key-1",
@@ -280,8 +281,8 @@ def run(ctx):
                 raise util.MachineryError("Matches table disagrees with the concrete names: %s %s" % (p, n))
     tlc.mc(ctx, "Gateway", cfg="MC_Gateway.cfg")
     cases = tlc.gen(ctx, "Gen_Gateway", cfg="Gen_Gateway.cfg")
-    if len(cases) != 11774:
-        raise util.MachineryError("expected 11774 cases, got %d" % len(cases))
+    if len(cases) != 12566:
+        raise util.MachineryError("expected 12566 cases, got %d" % len(cases))
     cases.sort(key=lambda c: json.dumps(c["r"], sort_keys=True))
     if ctx.quick:
         cases = [c for i, c in enumerate(cases) if c["decide"] in ("redirect", "notfound", "index", "preflight") or (i + ctx.seed) % 3 == 0]
